@@ -575,7 +575,7 @@ func runC17Caps(c *kit.Ctx, k *keyer) {
 				}
 			}
 		}
-		c.Floor("R17.4", "clamp instances", n, 3)
+		c.Floor("R17.4", "clamp instances", n, 2)
 	}
 
 	// ---- R17.5 caps dominate admissions
